@@ -107,8 +107,50 @@ def cases(draw, opts):
     return c
 
 
+NONASSOC = [0.1, 0.2, 0.3, 0.7, 1e16, -1e16, 1.0, 3.3, 1e-17, 1.0 / 3.0, 5e-324, 1e308, 7, -3]
+
+
+@st.composite
+def assoc_cases(draw):
+    """association probes: definitions that are chains of ONE operator family (+ -, or * /) with a drawn bracketing over
+    3..5 operands, called with values for which floating-point arithmetic is not associative - the printed source must
+    keep the bracketing of the expression tree"""
+    a, b, c = W.NUM_LEAVES[0], W.NUM_LEAVES[1], W.NUM_LEAVES[2]
+    x, y = W.NUM_LEAVES[3], W.NUM_LEAVES[4]
+    init = draw(H.init_strategy())
+    for k in (a, b, c):
+        init[E.loc_str(k)] = draw(st.sampled_from(NONASSOC))
+
+    def tree(n, ops, leaves):
+        if n == 1:
+            if draw(st.integers(0, 4)) == 0:
+                return E.lit(draw(st.sampled_from(NONASSOC)))
+            return W.ast_loc(draw(st.sampled_from(leaves)))
+        k = draw(st.integers(1, n - 1))
+        return ["bin", draw(st.sampled_from(ops)), tree(k, ops, leaves), tree(n - k, ops, leaves)]
+
+    def chain(leaves):
+        ops = draw(st.sampled_from([["+"], ["+", "-"], ["*"], ["*", "/"], ["+", "-"], ["-"]]))
+        for _ in range(8):
+            t = tree(draw(st.integers(3, 5)), ops, leaves)
+            if E.has_ref(t[2]) or E.has_ref(t[3]):
+                return t
+        return ["bin", ops[0], W.ast_loc(leaves[0]), ["bin", ops[0], W.ast_loc(leaves[1]), W.ast_loc(leaves[2])]]
+    ops = [{"op": "sete", "loc": W.json_loc(x), "ast": chain([a, b, c])}]
+    if draw(st.booleans()):
+        ops.append({"op": "sete", "loc": W.json_loc(y), "ast": chain([a, x, c])})
+    picked = draw(st.lists(st.sampled_from([a, b, c]), min_size=1, max_size=3, unique=True))
+    names = draw(st.lists(st.sampled_from(ARG_NAMES), min_size=len(picked), max_size=len(picked), unique=True))
+    calls = [[E.enc(draw(st.sampled_from(NONASSOC))) for _ in picked] for _ in range(draw(st.integers(1, 3)))]
+    return {"init": {k: E.enc(v) for k, v in init.items()}, "ops": ops, "excluded": {}, "raised": False,
+            "args": [[nm, W.json_loc(k)] for nm, k in zip(names, picked)], "calls": calls, "redefine": [], "calls2": [],
+            "probe": "association"}
+
+
 def exec_case(ctx, case):
     classes = {"genfun"}
+    if case.get("probe"):
+        classes.add("probe:" + case["probe"])
     rendered = {"history": W.render_case(case), "then_redefined": W.render_case({"ops": case.get("redefine") or []}),
                 "arguments": [f"{nm} -> {E.loc_str(W.tuple_loc(l))}" for nm, l in case["args"]],
                 "calls": [[E.show(E.dec(v)) for v in vals] for vals in case["calls"]]}
@@ -152,6 +194,12 @@ def exec_case(ctx, case):
         try:
             src = A.m.mk_fun("setter", **kwargs)
             fun = A.m.gen_fun("setter", **kwargs)
+            # a generated function belongs to the manager (and containers) it was generated for: generating further
+            # functions afterwards - for a second manager whose containers carry the SAME labels (the twin), or another
+            # function on the same manager - must not redirect it
+            A.m.gen_fun("other", **{case["args"][0][0]: A.ref(arg_keys[0])})
+            B.m.gen_fun("setter", **{nm: B.ref(k) for (nm, _), k in zip(case["args"], arg_keys)})
+            classes.add("functions-generated-afterwards(twin manager with same labels, same manager)")
         except Exception as e:
             return finish(Failure(f"C13:gen_fun-raises:{type(e).__name__}:{xdeps_frame(e)}", dict(where, raised=repr(e)[:300])), True)
         where["source"] = src.split("\n")
@@ -283,6 +331,7 @@ def run(ctx):
     drive(ctx, cases(opts), lambda c: exec_case(ctx, c), n, salt=1, label="C13")
     flat = H.Opts(ftasks=False, knobs=False, maint=False, max_ops=20, math_builtins=False, nested=False, setc=False)
     drive(ctx, cases(flat), lambda c: exec_case(ctx, c), max(30, n // 4), salt=2, label="C13 flat")
+    drive(ctx, assoc_cases(), lambda c: exec_case(ctx, c), max(30, n // 4), salt=3, label="C13 association probes")
     ctx.stats.extra["programs"] = ctx.stats.evaluations
 
 
